@@ -70,6 +70,15 @@ def decl_graphs(rng):
               "function main() -> void {\n  Keeper0 k = new Keeper0();\n  echo(k.visit());\n  Cage0<%s> c = k.swap(new Cage0<%s>(new %s()));\n  echo(c.speak());\n  echo(k.visit());\n}\n"
               % (arg, arg, arg)]
     out.append(chunks)
+    # an override of an overloaded virtual inherited from a generic base, next to an unrelated bounded generic
+    chunks = ["class Animal1 { public constructor() -> Animal1 = default; }\n", "class Stone1 { public constructor() -> Stone1 = default; }\n",
+              "class Base1<T> {\n  public constructor() -> Base1<T> = default;\n  public virtual function f(T x) -> void { echo(\"Base1.f(T)\"); }\n"
+              "  public virtual function f(Animal1 x) -> void { echo(\"Base1.f(Animal1)\"); }\n}\n",
+              "class Derived1 extends Base1<Stone1> {\n  public constructor() -> Derived1 { super(); }\n  public override function f(Animal1 x) -> void { echo(\"Derived1.f(Animal1)\"); }\n}\n",
+              "class Cage1<T extends Animal1> { public constructor() -> Cage1<T> = default; }\n",
+              "static class St1 { public static int v = twice1(4) + 1; }\n", "function twice1(int x) -> int { return x + x; }\n",
+              "function main() -> void {\n  Derived1 d = new Derived1();\n  d.f(new Animal1());\n  d.f(new Stone1());\n  echo(St1.v);\n}\n"]
+    out.append(chunks)
     return out
 
 
